@@ -185,18 +185,22 @@ func (a *pwaligner) fillMatrix_SW() (err error) {
 	var match, fnew float64
 
 	// First row
+	// best score of a gap ending at the current cell: either the extension of
+	// the best gap ending at the previous cell, or a gap opened after it
+	// (kept apart from the matrix, as in the other rows: the previous cell
+	// may hold a better score that does not end with a gap)
+	bestgap := 0.0
 	for j := 0; j < l2; j++ {
 		c1 = a.seq1.CharAt(0)
 		c2 = a.seq2.CharAt(j)
 		match = a.matchScore(c1, c2, indexseq1[0], indexseq2[j])
 		fnew = 0.0
 		if j > 0 {
-			fnew = a.matrix[0][j-1]
-			if a.trace[0][j-1] == ALIGN_LEFT {
-				fnew += a.gapextend
-			} else {
-				fnew += a.gapopen
+			fnew = a.matrix[0][j-1] + a.gapopen
+			if j > 1 && bestgap+a.gapextend > fnew {
+				fnew = bestgap + a.gapextend
 			}
+			bestgap = fnew
 		}
 		if match > fnew && match > .0 {
 			a.matrix[0][j] = match
@@ -218,7 +222,8 @@ func (a *pwaligner) fillMatrix_SW() (err error) {
 		a.maxa[j] = a.matrix[0][j] + a.gapopen
 	}
 
-	// First column
+	// First column (same thing, for gaps going down)
+	bestgap = 0.0
 	for i := 0; i < l1; i++ {
 		c1 = a.seq1.CharAt(i)
 		c2 = a.seq2.CharAt(0)
@@ -226,12 +231,11 @@ func (a *pwaligner) fillMatrix_SW() (err error) {
 
 		fnew = 0.0
 		if i > 0 {
-			fnew = a.matrix[i-1][0]
-			if a.trace[i-1][0] == ALIGN_UP {
-				fnew += a.gapextend
-			} else {
-				fnew += a.gapopen
+			fnew = a.matrix[i-1][0] + a.gapopen
+			if i > 1 && bestgap+a.gapextend > fnew {
+				fnew = bestgap + a.gapextend
 			}
+			bestgap = fnew
 		}
 		if match > fnew && match > .0 {
 			a.matrix[i][0] = match
